@@ -72,7 +72,7 @@ def _build():
                 "access-window clause of every processor class)"),
         ("C14", "leaf contracts quantified over width 1..64, offset, position and all values subsume the finite grid"),
     ]:
-        add(Check(pr, bp_mods, explanation=ex))
+        add(Check(pr, bp_mods + ["py_ast"], explanation=ex))
     for pr, ex in [
         ("C03", "C standard mode: the generated descriptors and the REAL runtime lib/c/bitproto.c are interpreted together "
                 "(clang AST) per template; Encode == reference bytes for all storage contents, Decode == value"),
@@ -82,6 +82,22 @@ def _build():
                 "model gives the same wire bytes / values as the little-endian run (same reference layout)"),
     ]:
         add(Check(pr, ["gen_c"], explanation=ex))
-    add(Check("C01", bp_mods, explanation="Python encoder layout: contracts on bp.py (leaf bit copier with quantified "
+    comp = ["py_ast", "py_parser", "py_main_lint"]
+    for pr, ex in [
+        ("C08", "two-sided 'raises X <=> constraint violated' contracts on every validator of _ast.py / options.py for ALL integers "
+                "(nodes are really constructed, so the freeze plumbing runs), on the parser actions that build the nodes, on the "
+                "reference lookup, and on main's error -> non-zero exit control flow"),
+        ("C09", "no-exception obligations (nothing but a bitproto error leaves the function) on the parser / lexer action functions"),
+        ("C11", "contract of _lookup_referenced_member (innermost scope of the current file that resolves the name, loop invariant "
+                "over an abstract scope stack of any depth), Scope.get_member, the reference actions, parse_child"),
+        ("C13", "contracts of the constant-expression actions for all integers (floor division, division by zero is a parser error), "
+                "the precedence table, literal tokens, value pass-through to array capacities and options"),
+        ("C17", "contracts on main (every argument / outcome combination), parse_child, p_optional_extensible_flag, "
+                "check_proto_for_optimization_mode, the three -F filters (abstract list + exact-name examples)"),
+        ("C20", "contracts on Linter.lint (count, reports, no mutation), every lint rule, main's check-mode exit, _get_col / "
+                "current_indent (rfind by its specification)"),
+    ]:
+        add(Check(pr, comp, explanation=ex))
+    add(Check("C01", bp_mods + ["py_ast"], explanation="Python encoder layout: contracts on bp.py (leaf bit copier with quantified "
               "bit-view invariant; cursor/frame/call-order contracts of every processor class against the abstract "
               "process contract)"))
